@@ -101,19 +101,28 @@ def for_range_to_while(func):
         ast.copy_location(test, loop.iter)
         for x in (init, w):
             ast.fix_missing_locations(x)
+        if isinstance(lo, ast.Name) and lo.id == iv:
+            return [w]      # ``for i in range(i, ..)``: i already holds the start
         return [init, w]
 
     def outside_counts(loop):
+        """occurrences of each name that could observe the loop variable after the loop:
+        everything outside the loop, except (a) other for-range loops over the same variable
+        (they re-initialise it) and (b), for a loop at the top level of the function body,
+        occurrences in earlier top-level statements (they cannot run after the loop)"""
         inside = {id(n) for n in ast.walk(loop)}
+        before = set()
+        if loop in func.body:
+            for st in func.body[:func.body.index(loop)]:
+                before.update(id(n) for n in ast.walk(st))
         counts = {}
         for n in ast.walk(func):
-            if isinstance(n, ast.Name) and id(n) not in inside:
+            if isinstance(n, ast.Name) and id(n) not in inside and id(n) not in before:
                 counts[n.id] = counts.get(n.id, 0) + 1
-        # other for-range loops over the same variable re-initialise it: not a read
         for n in ast.walk(func):
             if isinstance(n, ast.For) and n is not loop and isinstance(n.target, ast.Name):
                 inner = sum(1 for x in ast.walk(n) if isinstance(x, ast.Name) and x.id == n.target.id
-                            and id(x) not in inside)
+                            and id(x) not in inside and id(x) not in before)
                 if counts.get(n.target.id):
                     counts[n.target.id] -= inner
         return counts
@@ -219,9 +228,12 @@ def inline_adjacent_temps(func, log=None):
                 c[n.name] = c.get(n.name, 0) + 2
         return c
 
-    def single_load(st, name):
-        """the one Load of name inside st evaluated exactly once with st, else None"""
-        if isinstance(st, (ast.Assign, ast.AugAssign, ast.AnnAssign, ast.Expr, ast.Return, ast.Raise, ast.Assert)):
+    def single_load(st, name, rebind=False):
+        """the one Load of name inside st evaluated exactly once with st, else None
+        (rebind: st is ``name = <expr>``; its own target does not count)"""
+        if rebind:
+            roots = [st.value]
+        elif isinstance(st, (ast.Assign, ast.AugAssign, ast.AnnAssign, ast.Expr, ast.Return, ast.Raise, ast.Assert)):
             roots = [st]
         elif isinstance(st, ast.If):
             roots = [st.test]
@@ -258,8 +270,11 @@ def inline_adjacent_temps(func, log=None):
             st, nxt = body[i], body[i + 1]
             if isinstance(st, ast.Assign) and len(st.targets) == 1 and isinstance(st.targets[0], ast.Name):
                 t = st.targets[0].id
-                if t not in params and t not in special and counts().get(t) == 2:
-                    use = single_load(nxt, t)
+                rebind = isinstance(nxt, ast.Assign) and len(nxt.targets) == 1 \
+                    and isinstance(nxt.targets[0], ast.Name) and nxt.targets[0].id == t
+                if t not in special and (rebind or (t not in params and counts().get(t) == 2)):
+                    # (rebind: ``t = e; t = g(t)`` -- the first value's only reader is the next statement)
+                    use = single_load(nxt, t, rebind)
                     if use is not None:
                         Put(use, st.value).visit(nxt)
                         if log is not None:
@@ -325,6 +340,79 @@ def if_assign_to_ifexp(func):
     func.body = fix(func.body)
 
 
+def _positive(t):
+    """(positive form, True) when t is a negation (``not c``, ``is not``, ``not in``, ``!=``), else (t, False)"""
+    if isinstance(t, ast.UnaryOp) and isinstance(t.op, ast.Not):
+        return t.operand, True
+    comp = {ast.IsNot: ast.Is, ast.NotIn: ast.In, ast.NotEq: ast.Eq}
+    if isinstance(t, ast.Compare) and len(t.ops) == 1 and type(t.ops[0]) in comp:
+        c = ast.Compare(left=t.left, ops=[comp[type(t.ops[0])]()], comparators=t.comparators)
+        return ast.copy_location(c, t), True
+    return t, False
+
+
+class _PositiveElse(ast.NodeTransformer):
+    """two-way ``if <negation>: A`` / ``else: B``  ->  ``if <positive>: B`` / ``else: A``;
+    elif chains (dispatch) and ifs without else (guards) are left alone; the same for
+    conditional expressions"""
+
+    def visit_If(self, node, in_chain=False):
+        chain = len(node.orelse) == 1 and isinstance(node.orelse[0], ast.If)
+        node.test = self.visit(node.test)
+        node.body = [self.visit(s) for s in node.body]
+        if chain:
+            node.orelse = [self.visit_If(node.orelse[0], True)]
+            return node
+        node.orelse = [self.visit(s) for s in node.orelse]
+        if node.orelse and not in_chain:
+            pos, neg = _positive(node.test)
+            if neg:
+                new = ast.If(test=pos, body=node.orelse, orelse=node.body)
+                return ast.copy_location(new, node)
+        return node
+
+    def visit_IfExp(self, node):
+        self.generic_visit(node)
+        pos, neg = _positive(node.test)
+        if neg:
+            return ast.copy_location(ast.IfExp(test=pos, body=node.orelse, orelse=node.body), node)
+        return node
+
+
+def split_tuple_assign(func):
+    """``a, b = x, y`` with distinct local names on the left that do not occur on the right
+    ->  ``a = x; b = y`` (left-to-right evaluation is the same)"""
+
+    def fix(body):
+        out = []
+        for st in body:
+            if isinstance(st, _FUNC):
+                out.append(st)
+                continue
+            if isinstance(st, ast.Assign) and len(st.targets) == 1 and isinstance(st.targets[0], ast.Tuple) \
+                    and isinstance(st.value, ast.Tuple) and len(st.targets[0].elts) == len(st.value.elts) \
+                    and all(isinstance(t, ast.Name) for t in st.targets[0].elts) \
+                    and not any(isinstance(v, ast.Starred) for v in st.value.elts):
+                names = [t.id for t in st.targets[0].elts]
+                used = {n.id for v in st.value.elts for n in ast.walk(v) if isinstance(n, ast.Name)}
+                if len(set(names)) == len(names) and not (set(names) & used):
+                    for t, v in zip(st.targets[0].elts, st.value.elts):
+                        new = ast.Assign(targets=[t], value=v, lineno=st.lineno)
+                        ast.copy_location(new, st)
+                        out.append(new)
+                    continue
+            for f in ('body', 'orelse', 'finalbody'):
+                v = getattr(st, f, None)
+                if isinstance(v, list) and v and isinstance(v[0], ast.stmt):
+                    setattr(st, f, fix(v))
+            for h in getattr(st, 'handlers', ()):
+                h.body = fix(h.body)
+            out.append(st)
+        return out
+
+    func.body = fix(func.body)
+
+
 class _OrDefault(ast.NodeTransformer):
     """``x = x or E`` / ``x = x if x else E`` / ``x = E if not x else x``  ->  ``if not x: x = E``"""
 
@@ -357,10 +445,21 @@ class _OrDefault(ast.NodeTransformer):
 
 def apply_all(tree):
     tree = _OrDefault().visit(tree)
+    tree = _PositiveElse().visit(tree)
     for node in ast.walk(tree):
         if isinstance(node, (ast.FunctionDef, ast.AsyncFunctionDef)):
+            split_tuple_assign(node)
             if_assign_to_ifexp(node)
             for_range_to_while(node)
             coalesce_copies(node)
             inline_adjacent_temps(node)
     return tree
+
+
+def normalise_template(tree):
+    """the expression-level normal forms (negation forms, positive two-way choices), for
+    pattern templates"""
+    from .program import _NegForms
+    tree = _NegForms().visit(tree)
+    tree = _PositiveElse().visit(tree)
+    return ast.fix_missing_locations(tree)
